@@ -246,6 +246,21 @@ def bare_roots(ctx):
         rnd = random.Random(hseed * 31 + ctx.seed)
         root = ObjectStream(ast.Name(id="e", ctx=ast.Load()))
         streams = [(root, {}, "root")]
+        if hseed % 3:
+            # the other shapes a stream's bottom can have: an attribute / a subscript of a name, and - above a stream that already
+            # carries query metadata - a query in METHOD form or an attribute / subscript of it, as a back end or a user may assemble it
+            d0 = {rnd.choice(KEYS): rnd.choice([1, "x", (1, 2)])}
+            base = root.QMetaData(dict(d0))
+            shape = hseed % 6
+            if shape == 1:
+                node, how0 = ast.Attribute(value=base.query_ast, attr="jets", ctx=ast.Load()), "(root.QMetaData).jets"
+            elif shape == 2:
+                node, how0 = ast.Subscript(value=base.query_ast, slice=ast.Constant(value=0), ctx=ast.Load()), "(root.QMetaData)[0]"
+            elif shape == 4:
+                node, how0 = ast.Call(func=ast.Attribute(value=base.query_ast, attr="Select", ctx=ast.Load()), args=[ast.parse("lambda x: x.pt", mode="eval").body], keywords=[]), "(root.QMetaData).Select(..) in method form"
+            else:
+                node, how0 = ast.Attribute(value=ast.Call(func=ast.Attribute(value=base.query_ast, attr="First", ctx=ast.Load()), args=[], keywords=[]), attr="trks", ctx=ast.Load()), "(root.QMetaData).First().trks"
+            streams.append((ObjectStream(node), dict(d0), how0 + f" {d0}"))
         for step in range(rnd.randint(3, 12)):
             s, model, how = rnd.choice(streams[-4:])
             k = rnd.random()
